@@ -5,7 +5,15 @@ and clock movements (forwards and backwards, with boundary clocks) run on the re
 mocked `mongomock.utcnow` and on the Lean model.  Directly on python: an independent
 implementation of the rule of the property decides, after every step, which documents must be
 visible.
+
+Only EXISTING TTL indexes expire documents: the index creations of a history carry every
+combination of expireAfterSeconds / unique / sparse / partialFilterExpression and are often
+refused (duplicates under the unique key, a name taken with other options).  A refused creation
+must leave index_information() as it was, the TTL indexes it lists must be those that the
+successful creations and removals of the history account for, and no document may vanish that
+these indexes and the clock do not account for.
 """
+import copy
 import datetime as _dt
 import sys
 
@@ -17,11 +25,16 @@ from histcheck import freeze
 ID = 'C09'
 SALT = 909
 RULE = ('history = 3-30 generated operations on one collection with TTL indexes (periods 0..30 s, '
-        'float, numeric string and non-numeric periods, compound keys), documents whose TTL field '
+        'float, numeric string and non-numeric periods, compound keys; nearly half of the index '
+        'creations combine expireAfterSeconds / unique / sparse / partialFilterExpression, over '
+        'documents that hold few distinct values, so that creations are refused as often as they '
+        'succeed), documents whose TTL field '
         'holds dates around the clock, arrays of dates, non-dates or nothing, and clock moves of '
         '+-1..200 s including exact boundary instants; after every step outcome and visible '
         'documents are compared with the Lean model, and an independent python rendering of the '
-        'rule (shadow collection) says which documents must be visible; non-trivial = at some '
+        'rule (shadow collection) says which documents must be visible; index_information() is '
+        'read before and after every step: a refused creation leaves it unchanged, and its TTL '
+        'entries are exactly those the successful creations / removals leave; non-trivial = at some '
         'step one document has expired and another carrying a date survives; distinct = by hash '
         'of the history')
 ASSUMPTIONS = [
@@ -51,6 +64,7 @@ def histgen(rng, oids):
         delete_one=3, delete_many=2, find=5, count=4, distinct=3, create_index=9,
         drop_index=3, drop_indexes=2, drop=1, clock=14), ttl=True, embedded_ids=True)
     hg.ug.malformed = 0.02
+    hg.ttl_options = 0.45
     return hg
 
 
@@ -59,6 +73,18 @@ def length(rng):
 
 
 view = histcheck.full_view
+
+
+def listing(pr, op):
+    """what index_information() says (python-only observation, taken before every step and after
+    every observed one): the oracle holds the library to its own listing"""
+    try:
+        return copy.deepcopy(pr.coll.index_information())
+    except Exception as e:  # pylint: disable=broad-except
+        return '!' + type(e).__name__
+
+
+probe = pre_probe = listing
 
 
 # ---- the rule, independently ------------------------------------------------------------------
@@ -126,18 +152,68 @@ class Shadow(object):
         return False
 
 
+# operations that neither add a document nor change one (they may remove: expiry)
+NO_WRITE = ('clock', 'find', 'count', 'distinct', 'create_index', 'drop_index', 'drop_indexes')
+
+
+def listed_ttl(info):
+    """the TTL indexes that a listing (index_information()) accounts for, in the shadow's terms"""
+    ttl = {}
+    for name, ix in info.items():
+        n = ix.get('expireAfterSeconds')
+        if n is None:
+            continue
+        secs = period(n)
+        keys = list(ix.get('key') or [])
+        ttl[name] = (keys[0][0], secs) if len(keys) == 1 and secs is not None else None
+    return ttl
+
+
+def listing_after(steps, i):
+    """index_information() after step i: taken right after an observed step, before the next
+    step otherwise (None when the history ends there)"""
+    ex = steps[i].extra or {}
+    if 'probe' in ex:
+        return ex['probe']
+    if i + 1 < len(steps):
+        return (steps[i + 1].extra or {}).get('pre')
+    return None
+
+
 def oracle(history, steps):
     fails = []
     sh = Shadow()
     prev_docs = []
-    certain = True
+    certain = ids_known = True
     uniq = False
     for i, st in enumerate(steps):
         ttl_before = dict(sh.ttl)
         sh.apply(st)
+        # the indexes that exist are the indexes that are listed: a creation that raised leaves
+        # the listing as it was, and the TTL indexes the listing accounts for are exactly those
+        # the successful creations and removals of the history leave (so that every judgement
+        # below - made from the operations - is the judgement index_information() + the clock
+        # would give: nothing expires that no listed index accounts for)
+        before, after = (st.extra or {}).get('pre'), listing_after(steps, i)
+        if isinstance(after, dict):
+            if st.op[0] == 'create_index' and st.out[0] == 'err' and isinstance(before, dict) \
+                    and after != before:
+                fails.append((i, 'failed-creation-listed', 'create_index raised %s and changed '
+                              'index_information() from %r to %r' % (st.out[1], before, after)))
+            if listed_ttl(after) != sh.ttl:
+                fails.append((i, 'ttl-listing', 'after %s the TTL indexes listed by '
+                              'index_information() are %r, the successful creations / removals '
+                              'of the history leave %r' % (st.op[0], listed_ttl(after), sh.ttl)))
+        elif after is not None:
+            fails.append((i, 'observation', 'index_information() raised: %r' % (after,)))
+        # a unique index may refuse an insert as well: those that exist when the step begins are
+        # those the listing shows (an index that was dropped, or whose creation was refused, is
+        # none)
+        if isinstance(before, dict):
+            uniq = any(ix.get('unique') for ix in before.values())
         # an insert may be refused as duplicate only by a VISIBLE document (or a unique index)
         if st.op[0] == 'insert_one' and st.out[0] == 'err' and st.out[1] == 'DuplicateKeyError' \
-                and certain and not uniq and isinstance(st.op[1], dict) and '_id' in st.op[1]:
+                and ids_known and not uniq and isinstance(st.op[1], dict) and '_id' in st.op[1]:
             if not any(d.get('_id') == st.op[1]['_id'] and not sh.expired(d) for d in prev_docs):
                 fails.append((i, 'expired-blocks-insert', 'insert of _id %r refused at %d although '
                               'no visible document has it (ttl %r, documents %r)'
@@ -145,7 +221,7 @@ def oracle(history, steps):
         # the same inside an insert_many: a duplicate-key failure at position j needs a visible
         # document, or an earlier, unexpired document of the same batch, with that _id
         if st.op[0] == 'insert_many' and st.out[0] == 'err' and st.out[1] == 'BulkWriteError' \
-                and certain and not uniq and isinstance(st.op[1], list) and \
+                and ids_known and not uniq and isinstance(st.op[1], list) and \
                 all(isinstance(d, dict) for d in st.op[1]):
             batch = [histcheck.canon_value(d, st.oids) for d in st.op[1]]
             failed = [w.get('index') for w in st.out[2].get('writeErrors', [])
@@ -166,11 +242,15 @@ def oracle(history, steps):
             # unobserved step: the last observation stays valid only across clock moves
             if st.op[0] != 'clock':
                 certain = False
+            # ... and as a SUPERSET of the documents an insert can collide with across the steps
+            # that neither add nor change a document
+            if st.op[0] not in NO_WRITE:
+                ids_known = False
             if any(l not in known_labels for (_, l, _) in fails):
                 break
             continue
         was_certain = certain
-        certain = True
+        certain = ids_known = True
         docs = st.obs.get('docs') if isinstance(st.obs, dict) else None
         if not isinstance(docs, list):
             fails.append((i, 'observation', 'find({}) raised: %r' % (docs,)))
